@@ -279,24 +279,20 @@ func (s *Solver) checkFresh(asserts []*Term, wantModel []*Term, kind string) (Re
 		sb.WriteString(fmt.Sprintf("(set-option :timeout %d)\n", s.timeout))
 	}
 	ufDone := map[string]bool{}
-	for _, id := range closure(append(append([]*Term{}, asserts...), wantModel...)) {
-		for _, l := range s.defs[id] {
-			if strings.HasPrefix(l, "(declare-fun") {
-				if ufDone[l] {
-					continue
-				}
-				ufDone[l] = true
-			}
-			sb.WriteString(l)
-		}
-	}
-	// uninterpreted functions are declared under the id of their first use; make sure they exist
 	for _, ls := range s.defs {
 		for _, l := range ls {
 			if strings.HasPrefix(l, "(declare-fun") && !ufDone[l] {
 				ufDone[l] = true
 				sb.WriteString(l)
 			}
+		}
+	}
+	for _, id := range closure(append(append([]*Term{}, asserts...), wantModel...)) {
+		for _, l := range s.defs[id] {
+			if strings.HasPrefix(l, "(declare-fun") {
+				continue
+			}
+			sb.WriteString(l)
 		}
 	}
 	for _, a := range asserts {
